@@ -34,16 +34,27 @@ Cache path (`Sched/Prune.lean`):
   still make: for a source whose output times have not gone back, every cached connection and every step time
   at or after the consumer's last step, the newest entry at or before (time − shift) is the same in the pruned
   cache (list-level statement `prune_keeps_lookups`)
-NOT proved: the refinement of whole runs to the history specification (`push_refines_spec`,
-`pull_refines_spec`) — decided by the specification monitor on implementation traces (clean class)
-and by the correspondence; the known findings D8, D12, D14, event-with-initial-data and
-non-monotone output times are exactly where that refinement fails (see known_findings.json).
+Cache path, whole runs, all configurations (`Sched/CacheRef.lean`):
+* `pull_refines_spec`, `begin_pulls_history` : with the cache on, in every run whose reported output times do not go
+  back, the values a step pulls over its cached (persistent) connections are those of the *never-pruned history* of
+  the source — the declared initial data followed by every `get_data` reply of the run, entered the way `get_outputs`
+  enters it: for each connection the newest output at or before (step time − shift), `hist_lookup_newest` — and these
+  are the values sent with the step request.  Invariant `CacheRef`: the real, pruned cache and the history give the
+  same entry for every lookup a consumer can still make.  Hypotheses: initial cache content in key order
+  (`InitSorted`; its complement is the known finding about initial data of several shifted connections) and
+  `MonoAct` on the replies (complement of the known finding about non-monotone output times).
+NOT proved: the same refinement for the push path (`cache=False`: persistent memory + timed buffer against the
+history; events on flat configurations are covered by `no_late_arrival` / `taken_at_first_due_step`) — decided by the
+specification monitor on implementation traces (clean class) and by the correspondence; the known findings D12, D14,
+event-with-initial-data and non-monotone output times are exactly where the refinement fails (see known_findings.json).
 -/
 import MosaikProofs.Lemmas.Data
 import MosaikProofs.Sched.Reach
 import MosaikProofs.Sched.Buffer
 import MosaikProofs.Sched.Prune
 import MosaikProofs.Sched.BufferSrc
+import MosaikProofs.Sched.CacheRef
+import MosaikModel.WF
 namespace Mosaik.C03
 open Mosaik
 
@@ -274,5 +285,66 @@ theorem input_from_buffer_or_before (buf : List BufEntry) (step : Nat) (inp : In
   · right
     simp only [List.mem_filter, decide_eq_true_eq] at he
     exact ⟨e, he.1, he.2, hk, hv⟩
+
+/-! ### cache path: whole runs refine the output history -/
+
+/-- with the cache on, what a step pulls over its cached connections is read from the never-pruned history of the
+sources: the newest output at or before (step time − shift) -/
+theorem pull_refines_spec {cfg : Cfg} (hw : WFCfg cfg) (hc : cfg.useCache = true) (hi : InitSorted cfg) (hp : PullOk cfg) {s : State}
+    (hr : ReachM cfg s) (hnf : s.failed = none) {p : Sid} (hpn : p < cfg.n) (c : TT) (hlast : lastTime s p ≤ (TT.time c : Int))
+    (inp : InputData) :
+    pullInputs cfg s p c inp = pullSpec cfg (fun q => histOf cfg q s.log) p c inp :=
+  Mosaik.pull_refines_spec hw hc hi hp hr hnf hpn c hlast inp
+
+/-- … and that is what the step request carries -/
+theorem begin_pulls_history {cfg : Cfg} (hw : WFCfg cfg) (hc : cfg.useCache = true) (hi : InitSorted cfg) (hp : PullOk cfg)
+    {s s' : State} (hr : ReachM cfg s) (hnf0 : s.failed = none) {p : Sid} (h : step cfg s (.deps p) = some s') (hnf : s'.failed = none) :
+    ∃ c inp0 m, s'.log = .begin p c (pullSpec cfg (fun q => histOf cfg q s.log) p c inp0) m :: s.log :=
+  Mosaik.begin_pulls_history hw hc hi hp hr hnf0 h hnf
+
+/-- the history lookup is the entry with the greatest output time at or before `τ` (`{}` if there is none) -/
+theorem hist_lookup_newest {cfg : Cfg} (hw : WFCfg cfg) (hc : cfg.useCache = true) (hi : InitSorted cfg) {s : State}
+    (hr : ReachM cfg s) (hnf : s.failed = none) (q : Sid) (τ : Int) :
+    (∃ e ∈ histOf cfg q s.log, e.1 ≤ τ ∧ (∀ e' ∈ histOf cfg q s.log, e'.1 ≤ τ → e'.1 ≤ e.1) ∧ getOutputFor (histOf cfg q s.log) τ = e.2) ∨
+    ((∀ e ∈ histOf cfg q s.log, ¬ e.1 ≤ τ) ∧ getOutputFor (histOf cfg q s.log) τ = []) :=
+  Mosaik.hist_lookup_newest hw hc hi hr hnf q τ
+
+/-- the real cache agrees with the history on every lookup a consumer can still make (the invariant) -/
+theorem cache_agrees_with_history {cfg : Cfg} (hw : WFCfg cfg) (hc : cfg.useCache = true) (hi : InitSorted cfg) {s : State}
+    (hr : ReachM cfg s) (hnf : s.failed = none) {q : Sid} (hq : q < cfg.n) (τ : Int) (hτ : minLast cfg s - maxShift cfg q ≤ τ) :
+    getOutputFor (s.sims q).outputs τ = getOutputFor (histOf cfg q s.log) τ :=
+  (reachM_cacheRef hw hc hi hr hnf).look q hq τ hτ
+
+/-! non-vacuity: a producer A and a consumer B over one cached connection (`cache=True`).  The configuration meets the
+hypotheses, the run below is a `ReachM` run, and the step of B it enables pulls A's output 7 — the history's value. -/
+def cachedCfg : Cfg :=
+  { sims := [ { ty := .timeBased, next0 := [[0]], outReq := [(0, 0)], succs := [(1, ⟨1, 1, [0]⟩)] },
+              { ty := .timeBased, next0 := [[0]], inputDelays := [(0, ⟨1, 1, [0]⟩)], pulled := [(0, ⟨1, 1, [0]⟩, (0, 0), (0, 0))] } ],
+    until_ := 2, lazy_ := false, useCache := true }
+
+def cachedRun : List Action :=
+  [.start 0, .start 1, .deps 0, .stepReply 0 (.int 1), .dataReply 0 { data := [((0, 0), some 7)] }]
+
+example : cachedCfg.wfB = true ∧ cachedCfg.pullB = true ∧ cachedCfg.useCache = true := by decide
+
+example : InitSorted cachedCfg := by
+  intro q
+  match q with
+  | 0 => simp [cachedCfg, Cfg.sim, Sorted]
+  | 1 => simp [cachedCfg, Cfg.sim, Sorted]
+  | n + 2 => simp [cachedCfg, Cfg.sim, Sorted]
+
+example : ∃ s, ReachM cachedCfg s ∧ s.failed = none ∧ (step cachedCfg s (.deps 1)).isSome = true ∧
+    pullInputs cachedCfg s 1 [0] [] = [(⟨0, 0, 0, 0⟩, some 7)] ∧
+    pullSpec cachedCfg (fun q => histOf cachedCfg q s.log) 1 [0] [] = [(⟨0, 0, 0, 0⟩, some 7)] := by
+  have hex : (exec cachedCfg (initState cachedCfg) cachedRun).isSome = true := by decide
+  obtain ⟨s, hs⟩ := Option.isSome_iff_exists.mp hex
+  refine ⟨s, exec_reachM cachedRun ReachM.init hs (by decide), ?_⟩
+  have hall : ((exec cachedCfg (initState cachedCfg) cachedRun).map fun s =>
+      s.failed.isNone && (step cachedCfg s (.deps 1)).isSome && (pullInputs cachedCfg s 1 [0] [] == [(⟨0, 0, 0, 0⟩, some 7)]) &&
+        (pullSpec cachedCfg (fun q => histOf cachedCfg q s.log) 1 [0] [] == [(⟨0, 0, 0, 0⟩, some 7)])) = some true := by decide
+  rw [hs] at hall
+  simp only [Option.map_some, Option.some.injEq, Bool.and_eq_true, beq_iff_eq, Option.isNone_iff_eq_none] at hall
+  exact ⟨hall.1.1.1, hall.1.1.2, hall.1.2, hall.2⟩
 
 end Mosaik.C03
